@@ -403,6 +403,94 @@ Section Hash.
     (d, close_index inb (fst s), rev (snd s)).
 End Hash.
 
+(* ------------------------------------------------------------------ specification predicates
+   (used in the statements of Properties.v) *)
+
+Section Spec.
+  (* P path name node  holds for every node below (and including) a node *)
+  Variable P : list N -> list N -> tree -> Prop.
+
+  Fixpoint tree_all (p n : list N) (t : tree) {struct t} : Prop :=
+    P p n t /\
+    match t with
+    | Dir _ es =>
+        (fix go (l : entries) : Prop :=
+           match l with
+           | [] => True
+           | e :: tl => tree_all (pjoin p (fst e)) (fst e) (snd e) /\ go tl
+           end) es
+    | _ => True
+    end.
+
+  (* for the entries of the directory with path p ([] = the hashed root) *)
+  Fixpoint entries_all (p : list N) (l : entries) : Prop :=
+    match l with
+    | [] => True
+    | e :: tl => tree_all (pjoin p (fst e)) (fst e) (snd e) /\ entries_all p tl
+    end.
+End Spec.
+
+(* the stat data compared by FileIndex.__match *)
+Definition statkey := (N * N * N * N * N * N)%type.
+Definition skey (st : stat) : statkey :=
+  (st_ctime st, st_mtime st, st_dev st, mask_ino (st_ino st), st_mode st, st_size st).
+Definition rkey (r : rec) : statkey :=
+  (r_ctime r, r_mtime r, r_dev r, r_ino r, r_mode r, r_size r).
+
+(* "every modification changes the file's stat data": within a history the
+   name and stat data of a file or symlink determine its content *)
+Definition node_consistent (content_of : list N -> statkey -> list N) (p n : list N) (t : tree) : Prop :=
+  match t with
+  | File st d => d = content_of p (skey st)
+  | Link st g => g = content_of p (skey st)
+  | _ => True
+  end.
+Definition consistent content_of (es : entries) : Prop := entries_all (node_consistent content_of) [] es.
+
+(* a cache record is truthful: its digest is the hash of what its name and stat data denote *)
+Definition rec_ok (H : list N -> list N) (content_of : list N -> statkey -> list N) (r : rec) : Prop :=
+  r_digest r = H (content_of (r_name r) (rkey r)).
+Definition file_records (b : list N) : list rec := map snd (parse_body 4 (skipn 4 b)).
+Definition file_ok H content_of (f : option (list N)) : Prop :=
+  match f with None => True | Some b => Forall (rec_ok H content_of) (file_records b) end.
+
+(* directory entries have non-empty names *)
+Definition node_named (p n : list N) (t : tree) : Prop := n <> [].
+Definition named (es : entries) : Prop := entries_all node_named [] es.
+
+(* type bits of st_mode agree with the kind of node (S_ISREG, S_ISDIR, ...) *)
+Definition kind_ok (t : tree) (k : N) : Prop :=
+  match t with
+  | File _ _ => k = 8
+  | Dir _ _ => k = 4
+  | Link _ _ => k = 10
+  | Dev _ _ => k = 2 \/ k = 6
+  | Fifo _ => k = 1
+  | Other _ => k <> 0 /\ k <> 1 /\ k <> 2 /\ k <> 4 /\ k <> 6 /\ k <> 8 /\ k <> 10
+  end.
+Definition node_wf (p n : list N) (t : tree) : Prop :=
+  ~ In 0 n /\ st_mode (node_stat t) < 65536 /\ kind_ok t (st_mode (node_stat t) / 4096) /\
+  match t with Dev _ r => r < 4294967296 | _ => True end.
+Definition wf (es : entries) : Prop := entries_all node_wf [] es.
+
+(* what a directory listing guarantees: names non-empty, without '/', pairwise different *)
+Definition node_listing (p n : list N) (t : tree) : Prop :=
+  n <> [] /\ ~ In SLASH n /\ match t with Dir _ es => NoDup (map fst es) | _ => True end.
+Definition listing (es : entries) : Prop := NoDup (map fst es) /\ entries_all node_listing [] es.
+
+(* values that struct.pack accepts in a cache entry *)
+Definition node_packable (p n : list N) (t : tree) : Prop :=
+  let s := node_stat t in
+  st_ctime s < 18446744073709551616 /\ st_mtime s < 18446744073709551616 /\ st_dev s < 18446744073709551616 /\
+  st_mode s < 4294967296 /\ st_size s < 18446744073709551616 /\ N.of_nat (length p) < 65536.
+Definition packable (es : entries) : Prop := entries_all node_packable [] es.
+
+(* an explicit collision of H between two lists of hashed byte strings *)
+Definition collision (H : list N -> list N) (l1 l2 : list (list N)) : Prop :=
+  exists x y, In x l1 /\ In y l2 /\ x <> y /\ H x = H y.
+
+Definition bytes_lt (a b : list N) : Prop := bytes_ltb a b = true.
+
 (* ------------------------------------------------------------------ ties and test instances *)
 
 Definition nlist_eqb (a b : list N) : bool := bytes_eqb a b.
